@@ -56,11 +56,16 @@ def route_cffi(types, res, seed):
     except Exception as e:
         res.skipped["api-does-not-build(C02's business):" + type(e).__name__] += len(types)
         return
-    for t in types:
-        for vmode in ("ramp", "minimal"):
+    for ti, t in enumerate(types):
+        for vmode in ("ramp", "minimal", "ramp:bytearray"):
+            kind = "np"
+            if vmode.endswith(":bytearray"):
+                if ti % 3:
+                    continue
+                vmode, kind = "ramp", "ba"
             v = xt.gen(t, vmode)
             try:
-                obj, buf = cseam.place_object(t, v, seed)
+                obj, buf = cseam.place_object(t, v, seed, kind)
                 if not xt.veq(xt.read(t, obj), v):
                     res.skipped["initial-readback(C01's business)"] += 1
                     continue
